@@ -38,3 +38,7 @@ check("C06", "exploration", "exhaustive presence matrix + Hypothesis combination
       "The finite matrix (every corpus field x {unset, default, non-default} x {constructor, setattr, parse, from_dict}) is enumerated completely against a presence model written from the statement and against the reference's HasField / WhichOneof on the same bytes; fresh messages and lazily created nested assignment are enumerated; combinations of presence-tracked fields decoded from reference bytes are sampled with Hypothesis.",
       "Exhaustive over the matrix of the corpus schema, sampled for combinations; plain Timestamp/Duration fields are excluded from the presence-report clause.",
       "DESIGN.md 3/C06")
+check("C07", "exploration", "model-based histories (Hypothesis operation lists + RuleBasedStateMachine) vs reference model of oneof state",
+      "Generated operation histories (construct, set default/non-default, parse of multi-member byte strings, from_dict, copy/deepcopy/pickle, observers) are applied to the real message and to a last-write-wins model; after every step which_one_of, AttributeError on siblings, the encoded records (spec parser + reference WhichOneof) and to_dict in both casings must agree with the model.",
+      "Samples histories of bounded length over one corpus message with three oneof groups covering every member kind.",
+      "DESIGN.md 3/C07")
